@@ -43,6 +43,7 @@ class FakeKazoo(KazooClient):
     self.evq = Queue()
     self.latencies = list(latencies)
     self.ncalls = 0
+    self.busy = False          # the event handler greenlet is inside a callback
     self.override = {}         # method name -> latency, takes precedence over the cycle (choreographed races)
     self.callback_errors = []
     self.incarnations = {}     # path -> [dict(czxid, created, deleted, had_children)]
@@ -66,10 +67,13 @@ class FakeKazoo(KazooClient):
   def _pump(self):
     while True:
       w, ev = self.evq.get()
+      self.busy = True
       try:
         w(ev)
       except Exception as e:      # kazoo's handler logs and carries on
         self.callback_errors.append(repr(e))
+      finally:
+        self.busy = False
 
   def _lat(self, method=None):
     d = self.latencies[self.ncalls % len(self.latencies)]
